@@ -6,7 +6,7 @@
       0<=f<6 /\ 0<=l<=30 /\ 0<=k<4^l /\ c = f*2^61 + (2k+1)*4^(30-l). *)
 From Coq Require Import ZArith List Bool Floats Reals.
 From Geo Require Import Base.GoPrim Gen.CellIDFull Model.CellIDTables
-  Base.F64Arith Proofs.C01_Tables Proofs.C01_Algebra Proofs.C01_IJ Proofs.C01_Advance Proofs.C01_Iter Proofs.C01_Point Proofs.C01_Text Proofs.C01_Hilbert Proofs.C01_Inverse Proofs.C01_Nbr Proofs.C01_WrapInside Proofs.C01_Nbr2 Proofs.StUV_Mono.
+  Base.F64Arith Proofs.C01_Tables Proofs.C01_Algebra Proofs.C01_IJ Proofs.C01_Advance Proofs.C01_Iter Proofs.C01_Point Proofs.C01_Text Proofs.C01_Hilbert Proofs.C01_Inverse Proofs.C01_Nbr Proofs.C01_WrapInside Proofs.C01_Nbr2 Proofs.C01_WrapSide Proofs.C01_WrapAdj Proofs.StUV_Mono.
 (* the hand models compared with Go by the observer (built with this file: one make target) *)
 From Geo Require Model.C01Obs.
 From Geo Require Import Model.CellIDNbr.
@@ -210,8 +210,13 @@ Print Assumptions c01_hilbert_face_to_face.
     cellIDFromFaceIJWrap (a float round trip) even inside the face; [c01_wrap_inside] shows that
     for 0 <= i,j < 2^30 that function IS cellIDFromFaceIJ (every float operation on the path is
     exact), so the EdgeNeighbors theorems are closed.
-    TODO (not closed): cross-face entries (H-WRAP: the leaf just outside a face side is the adjacent
-    leaf of the neighbouring face) — covered by [S] against the cube model on every run. *)
+    H-WRAP on the 24 face sides is closed below ([c01_wrap_face_sides*]): one step outside a side, the
+    wrap function returns the explicit leaf [target side f t] of the neighbouring face, which shares an
+    edge with the boundary leaf in the integer cube model.
+    TODO (not closed): coordinates outside BOTH ranges (beyond a cube corner; used by the diagonal entries
+    of VertexNeighbors/AllNeighbors at cube corners) and lifting the leaf-level side theorem to the
+    grid position of cross-face EdgeNeighbors/AllNeighbors entries at coarser levels — covered by [S]
+    against the cube model on every run. *)
 Theorem c01_wrap_inside : forall f i j, 0 <= f < 6 -> 0 <= i < 2 ^ 30 -> 0 <= j < 2 ^ 30 ->
   s2_cellIDFromFaceIJWrap f i j = s2_cellIDFromFaceIJ f i j.
 Proof. exact wrap_inside. Qed.
@@ -309,6 +314,25 @@ Theorem c01_vertex_neighbors_all_cases : forall c f l a b level, at_pos c f l a 
     (isame = true -> at_pos n1 f level (A + di) B) /\ (jsame = true -> at_pos n2 f level A (B + dj)).
 Proof. exact VertexNeighbors_general. Qed.
 Print Assumptions c01_vertex_neighbors_all_cases.
+
+(** H-WRAP, face sides (closed).  side 0: i = -1, 1: i = 2^30, 2: j = -1, 3: j = 2^30; t = offset along
+    the side; [target side f t] = (g, i', j') is an explicit table (Proofs/C01_WrapSide.v); [inside side t]
+    is the boundary leaf on face f.  The float path is NOT exact here (division by nextafter(1,2)); the
+    proof brackets every intermediate value between representable dyadics (monotonicity of rounding only). *)
+Theorem c01_wrap_face_sides : forall f t, 0 <= f < 6 -> 0 <= t < 2 ^ 30 ->
+  s2_cellIDFromFaceIJWrap f (-1) t = (let '(g, i', j') := target 0 f t in s2_cellIDFromFaceIJ g i' j') /\
+  s2_cellIDFromFaceIJWrap f 1073741824 t = (let '(g, i', j') := target 1 f t in s2_cellIDFromFaceIJ g i' j') /\
+  s2_cellIDFromFaceIJWrap f t (-1) = (let '(g, i', j') := target 2 f t in s2_cellIDFromFaceIJ g i' j') /\
+  s2_cellIDFromFaceIJWrap f t 1073741824 = (let '(g, i', j') := target 3 f t in s2_cellIDFromFaceIJ g i' j').
+Proof. exact wrap_sides. Qed.
+Print Assumptions c01_wrap_face_sides.
+
+Theorem c01_wrap_face_sides_target_adjacent : forall side f t, 0 <= side < 4 -> 0 <= f < 6 -> 0 <= t < 2 ^ 30 ->
+  (let '(g, i', j') := target side f t in 0 <= g < 6 /\ g <> f /\ 0 <= i' < 2 ^ 30 /\ 0 <= j' < 2 ^ 30) /\
+  (let '(ib, jb) := inside side t in let '(g, i', j') := target side f t in
+   share_edge 1073741824 f ib jb g i' j').
+Proof. intros side f t Hs Hf Ht. split; [exact (target_range side f t Hs Hf Ht)|exact (target_adjacent side f t Hs Hf Ht)]. Qed.
+Print Assumptions c01_wrap_face_sides_target_adjacent.
 
 (** points -------------------------------------------------------------------- *)
 Theorem c01_point_leaf_is_valid : forall p, exists f k, 0 <= f < 6 /\ rep (s2_cellIDFromPoint p) f 30 k /\
